@@ -39,8 +39,12 @@ var solvers = []solverCfg{
 }
 
 func runSolver(s solverCfg, file string, timeout int) (class, out string, secs float64) {
+	return runSolverCtx(context.Background(), s, file, timeout)
+}
+
+func runSolverCtx(parent context.Context, s solverCfg, file string, timeout int) (class, out string, secs float64) {
 	args := s.args(file, timeout)
-	ctx, cancel := context.WithTimeout(context.Background(), time.Duration(timeout+5)*time.Second)
+	ctx, cancel := context.WithTimeout(parent, time.Duration(timeout+5)*time.Second)
 	defer cancel()
 	cmd := exec.CommandContext(ctx, args[0], args[1:]...)
 	var buf bytes.Buffer
@@ -58,13 +62,19 @@ func runSolver(s solverCfg, file string, timeout int) (class, out string, secs f
 		return "sat", out, secs
 	case first == "unknown":
 		return "unknown", out, secs
+	case parent.Err() != nil:
+		return "cancelled", out, secs
 	case strings.Contains(first, "timeout") || ctx.Err() != nil || strings.Contains(out, "interrupted"):
 		return "timeout", out, secs
+	}
+	if !strings.Contains(out, "error") {
+		return "unknown", out, secs
 	}
 	return "error", out, secs
 }
 
-// Discharge runs the portfolio on one query. all: every solver must be consulted (thorough tier).
+// Discharge races the portfolio on one query: the first `unsat` wins. all: every solver must answer and none may
+// contradict (`sat` against `unsat`) — thorough tier.
 func Discharge(o *Obl, script, dir string, timeout int, all bool) *Verdict {
 	h := sha256.Sum256([]byte(script))
 	name := mangle(o.Name() + "@" + o.Site)
@@ -74,52 +84,65 @@ func Discharge(o *Obl, script, dir string, timeout int, all bool) *Verdict {
 	file := filepath.Join(dir, fmt.Sprintf("%s_%x.smt2", name, h[:4]))
 	os.WriteFile(file, []byte(script), 0o644)
 	v := &Verdict{Obl: o, File: file, Hash: fmt.Sprintf("%x", h[:8])}
-	var firstFail *Verdict
-	for i, s := range solvers {
-		cls, out, secs := runSolver(s, file, timeout)
-		if i == 0 && cls == "sat" {
-			// ask for the model in a second run (z3 prints it after get-model)
-			v.Model = getModel(script, dir, name)
+	type ans struct {
+		solver, class, out string
+		secs               float64
+	}
+	ctx, cancel := context.WithCancel(context.Background())
+	defer cancel()
+	ch := make(chan ans, len(solvers))
+	t0 := time.Now()
+	for _, s := range solvers {
+		s := s
+		go func() {
+			cls, out, secs := runSolverCtx(ctx, s, file, timeout)
+			ch <- ans{s.name, cls, out, secs}
+		}()
+	}
+	var answers []ans
+	for range solvers {
+		a := <-ch
+		answers = append(answers, a)
+		if a.class == "unsat" && !all {
+			cancel()
+			v.Status, v.Class, v.Solver, v.Secs = "proved", "unsat", a.solver, time.Since(t0).Seconds()
+			return v
 		}
-		v.Secs += secs
-		if cls == "unsat" {
-			if all && firstFail != nil && firstFail.Class == "sat" {
-				// disagreement between solvers: report as failed (thorough tier requires agreement)
-				v.Status, v.Class, v.Solver, v.Output = "failed", "disagree", firstFail.Solver+" vs "+s.name, firstFail.Output
-				return v
+	}
+	v.Secs = time.Since(t0).Seconds()
+	var unsat, sat, other *ans
+	for i := range answers {
+		a := &answers[i]
+		switch a.class {
+		case "unsat":
+			if unsat == nil {
+				unsat = a
 			}
-			v.Status, v.Class, v.Solver = "proved", "unsat", s.name
-			if !all {
-				return v
+		case "sat":
+			if sat == nil {
+				sat = a
 			}
-			if firstFail == nil {
-				firstFail = &Verdict{Class: "unsat", Solver: s.name}
-			}
-			continue
-		}
-		if cls == "error" && !strings.Contains(out, "error") {
-			cls = "unknown"
-		}
-		if firstFail == nil || (firstFail.Class != "sat" && cls == "sat") || firstFail.Class == "unsat" {
-			if firstFail != nil && firstFail.Class == "unsat" && cls == "sat" {
-				v.Status, v.Class, v.Solver, v.Output = "failed", "disagree", firstFail.Solver+" vs "+s.name, out
-				return v
-			}
-			if firstFail == nil || firstFail.Class != "unsat" {
-				firstFail = &Verdict{Class: cls, Solver: s.name, Output: out}
+		default:
+			if other == nil {
+				other = a
 			}
 		}
 	}
-	if v.Status == "proved" {
-		return v
-	}
-	if firstFail != nil && firstFail.Class == "unsat" {
-		v.Status, v.Class, v.Solver = "proved", "unsat", firstFail.Solver
-		return v
-	}
-	v.Status = "failed"
-	if firstFail != nil {
-		v.Class, v.Solver, v.Output = firstFail.Class, firstFail.Solver, firstFail.Output
+	switch {
+	case unsat != nil && sat != nil:
+		v.Status, v.Class, v.Solver, v.Output = "failed", "disagree", unsat.solver+" vs "+sat.solver, sat.out
+	case unsat != nil:
+		v.Status, v.Class, v.Solver = "proved", "unsat", unsat.solver
+	case sat != nil:
+		v.Status, v.Class, v.Solver, v.Output = "failed", "sat", sat.solver, sat.out
+		v.Model = getModel(script, dir, name)
+	case other != nil:
+		v.Status, v.Class, v.Solver, v.Output = "failed", other.class, other.solver, other.out
+		for _, a := range answers {
+			if a.class == "timeout" {
+				v.Class = "timeout"
+			}
+		}
 	}
 	if len(v.Output) > 4000 {
 		v.Output = v.Output[:4000]
